@@ -13,6 +13,13 @@ let rec int_of_pos = function
   | XH -> 1 | XO p -> 2 * int_of_pos p | XI p -> 2 * int_of_pos p + 1
 let int_of_n = function N0 -> 0 | Npos p -> int_of_pos p
 
+(* the Coq string type <-> OCaml strings *)
+let rec coq_string_of (s : string) i : Mtbl_model.string =
+  if i >= String.length s then EmptyString
+  else String (ascii_of_N (n_of_int (Char.code s.[i])), coq_string_of s (i + 1))
+let rec ocaml_string_of (s : Mtbl_model.string) : string =
+  match s with EmptyString -> "" | String (c, tl) -> String.make 1 (Char.chr (int_of_n (n_of_ascii c))) ^ ocaml_string_of tl
+
 (* unsigned 64-bit <-> N *)
 let rec pos_of_u64 (x : int64) =
   if Int64.equal x 1L then XH
